@@ -334,4 +334,9 @@ def _pytensor_get_mean_std(dist, in_unit, out_unit):
         mu = pars[0].eval()
         std = pars[1].eval()
 
+    # pytensor keeps constants in the smallest dtype that represents them exactly
+    # (float32, int8, ...): do the unit conversion in double precision
+    mu = np.asarray(mu, dtype=np.float64)
+    std = np.asarray(std, dtype=np.float64)
+
     return (mu * in_unit).to_value(out_unit), (std * in_unit).to_value(out_unit)
